@@ -32,7 +32,7 @@ Definition show (r : res zparr) : option (obs ZR) + err :=
   match r with Ok p => inl (Some (observe p)) | Err e => inr e end.
 
 (* ---- ordered instance (comparisons, leading terms) ------------------------------------- *)
-From NP Require Import Order Compare.
+From NP Require Import Order Compare Proxy.
 Definition ZO : realDomainType := [realDomainType of Z].
 
 Inductive bexpect := BOk of seq nat & seq bool | BErr of err.
@@ -48,6 +48,8 @@ Definition zequal (o : opts) (a b : zparr) := @pequal ZO o a b.
 Definition znot_equal (o : opts) (a b : zparr) := @pnot_equal ZO o a b.
 Definition zselect (code : cmp_code) (o : opts) (a b : zparr) : res zparr := @pselect ZO code o a b.
 Definition zlead_exponent g r (p : zparr) := @lead_exponent ZO g r p.
+Definition zproxy_raw g r (p : zparr) : seq nat := @proxy_raw ZO g r p.
+Definition zsortable_proxy g r (p : zparr) : seq nat := @sortable_proxy ZO g r p.
 Definition zlead_coefficient g r (p : zparr) : seq Z := @lead_coefficient ZO g r p.
 
 (* ---- queries (C19) -------------------------------------------------------------------------- *)
